@@ -194,3 +194,10 @@ Proof.
       exists j. split; [lia|done].
     + exists i. split; [lia|]. rewrite Hun by lia. done.
 Qed.
+
+(** A panic in one archetype ends the whole ecs_iter_destroy! query: the remaining archetypes are
+    returned untouched. *)
+Lemma iterd_world_panic cfg d a ar s wr acc pr ord decs din p s1 recs ds ord1 stp din1 :
+  iterd_arch cfg (len s) s (version s) acc (nz_cols d a) ord decs din = Panic p (s1, recs, ds, ord1, stp, din1) ->
+  iterd_world cfg d (a :: ar) (s :: wr) (Some acc :: pr) ord decs din = Panic p (s1 :: wr, recs, ds, din1).
+Proof. intros H. cbn [iterd_world]. by rewrite H. Qed.
